@@ -3954,6 +3954,12 @@ fn write_residuals<W: BitWrite>(
         }
     }
 
+    // the most negative 32-bit value is not a valid residual
+    // (and cannot be folded into a Rice code without overflow)
+    if residuals.contains(&i32::MIN) {
+        return Err(Error::ResidualOverflow);
+    }
+
     let block_size = predictor_order + residuals.len();
 
     if options.use_rice2 {
